@@ -44,71 +44,77 @@ theorem lookup_mem {β} (l : List (Peer × β)) (p : Peer) (v : β) (h : lookup 
     · simp only [hk, Bool.false_eq_true, ↓reduceIte] at h
       exact List.mem_cons_of_mem _ (ih h)
 
-/-- Removing the entry of `p` from a map with unique keys = removing the pair `(p, probe)` from
-its `(key, probe)` projection. -/
-theorem erase_map_probe (l : List (Peer × Ongoing)) (p : Peer) (o : Ongoing)
-    (hl : lookup l p = some o) (hn : (l.map (·.1)).Nodup) :
-    (erase l p).map (fun e => (e.1, e.2.probe)) =
-      (l.map (fun e => (e.1, e.2.probe))).filter (· ≠ (p, o.probe)) := by
+theorem erase_map_req (l : List (Peer × Ongoing)) (p : Peer) :
+    (erase l p).map (fun e => (e.1, e.2.req)) =
+      (l.map (fun e => (e.1, e.2.req))).filter (fun e => !(e.1 == p)) := by
+  unfold erase
+  rw [List.filter_map]
+  rfl
+
+theorem lookup_unique {β} (l : List (Peer × β)) (p : Peer) (o : β)
+    (hl : lookup l p = some o) (hn : (l.map (·.1)).Nodup) : ∀ e ∈ l, e.1 = p → e.2 = o := by
   induction l with
   | nil => simp [lookup] at hl
-  | cons e t ih =>
-    obtain ⟨k, v⟩ := e
+  | cons x t ih =>
+    obtain ⟨k, v⟩ := x
     simp only [List.map_cons, List.nodup_cons] at hn
     simp only [lookup] at hl
+    intro e he hep
     by_cases hk : (k == p) = true
     · have hkp : k = p := by simpa using hk
-      subst hkp
-      simp only [beq_self_eq_true, ↓reduceIte, Option.some.injEq] at hl
-      subst hl
-      have hnot : hasKey t k = false := by
-        unfold hasKey
-        rw [List.any_eq_false]
-        intro e he hek
+      simp only [hk, ↓reduceIte, Option.some.injEq] at hl
+      rcases List.mem_cons.1 he with rfl | he
+      · exact hl
+      · exfalso
         apply hn.1
-        have : e.1 = k := by simpa using hek
-        rw [← this]
+        rw [hkp, ← hep]
         exact List.mem_map_of_mem he
-      have h1 : erase ((k, v) :: t) k = t := by
-        have := erase_of_not_hasKey t k hnot
-        unfold erase at this ⊢
-        simp [List.filter_cons, this]
-      rw [h1]
-      simp only [List.map_cons, ne_eq, not_true_eq_false, decide_false, Bool.false_eq_true,
-        not_false_eq_true, List.filter_cons_of_neg]
-      symm
-      rw [List.filter_eq_self]
-      intro e he
-      simp only [List.mem_map] at he
-      obtain ⟨e', he', rfl⟩ := he
-      simp only [ne_eq, Prod.mk.injEq, not_and, decide_eq_true_eq]
-      intro hkk
-      exfalso
-      apply hn.1
-      rw [← hkk]
-      exact List.mem_map_of_mem he'
     · simp only [hk, Bool.false_eq_true, ↓reduceIte] at hl
-      have hkp : k ≠ p := by simpa using hk
-      have h1 : erase ((k, v) :: t) p = (k, v) :: erase t p := by
-        unfold erase
-        simp [List.filter_cons, hkp]
-      rw [h1]
-      simp only [List.map_cons]
-      rw [ih hl hn.2]
-      rw [List.filter_cons_of_pos]
-      simp [hkp]
+      rcases List.mem_cons.1 he with rfl | he
+      · exfalso; apply hk; simpa using hep
+      · exact ih hl hn.2 e he hep
 
-theorem filter_ne_self_of_probe_lt (l : List (Peer × Ongoing)) (p : Peer) (n : Nat)
-    (h : ∀ e ∈ l, e.2.probe < n) :
-    (l.map (fun e => (e.1, e.2.probe))).filter (· ≠ (p, n)) = l.map (fun e => (e.1, e.2.probe)) := by
+theorem lookup_none_keys {β} (l : List (Peer × β)) (p : Peer) (hl : lookup l p = none) :
+    ∀ e ∈ l, e.1 ≠ p := by
+  induction l with
+  | nil => intro e he; simp at he
+  | cons x t ih =>
+    obtain ⟨k, v⟩ := x
+    simp only [lookup] at hl
+    by_cases hk : (k == p) = true
+    · simp [hk] at hl
+    · simp only [hk, Bool.false_eq_true, ↓reduceIte] at hl
+      intro e he
+      rcases List.mem_cons.1 he with rfl | he
+      · simpa using hk
+      · exact ih hl e he
+
+/-- a failure of a request that did not start the tracked dial-back of `p` finishes nothing -/
+theorem filter_req_nomatch (l : List (Peer × Ongoing)) (p : Peer) (reqId : Nat)
+    (h : ∀ e ∈ l, e.1 = p → e.2.req ≠ reqId) :
+    (l.map (fun e => (e.1, e.2.req))).filter (· ≠ (p, reqId)) = l.map (fun e => (e.1, e.2.req)) := by
   rw [List.filter_eq_self]
   intro e he
   simp only [List.mem_map] at he
   obtain ⟨e', he', rfl⟩ := he
-  have := h e' he'
   simp only [ne_eq, Prod.mk.injEq, not_and, decide_eq_true_eq]
-  intro _
-  omega
+  intro hp
+  exact h e' he' hp
+
+/-- a failure of the request that started the tracked dial-back of `p` finishes exactly it -/
+theorem filter_req_match (l : List (Peer × Ongoing)) (p : Peer) (o : Ongoing)
+    (hl : lookup l p = some o) (hn : (l.map (·.1)).Nodup) :
+    (l.map (fun e => (e.1, e.2.req))).filter (· ≠ (p, o.req)) =
+      (erase l p).map (fun e => (e.1, e.2.req)) := by
+  rw [erase_map_req]
+  apply List.filter_congr
+  intro e he
+  simp only [List.mem_map] at he
+  obtain ⟨e', he', rfl⟩ := he
+  by_cases hp : e'.1 = p
+  · have := lookup_unique l p o hl hn e' he' hp
+    simp [hp, this]
+  · simp [hp]
 
 theorem erase_keys_nodup {β} (l : List (Peer × β)) (p : Peer) (h : (l.map (·.1)).Nodup) :
     ((erase l p).map (·.1)).Nodup := by
@@ -255,7 +261,7 @@ theorem filter_nodup (peer : Peer) (demanded : List Maddr) (obs : Maddr) :
 structure R (cfg : Cfg) (st : St) (m : Mon) : Prop where
   now : m.now = st.now
   conns : m.conns = st.connected
-  inflight : m.inflight = st.ongoing.map (fun e => (e.1, e.2.probe))
+  inflight : m.inflight = st.ongoing.map (fun e => (e.1, e.2.req))
   keys : (st.ongoing.map (·.1)).Nodup
   probes : ∀ e ∈ st.ongoing, e.2.probe < st.probeId
   log : ∃ dropped, m.log = dropped ++ st.throttled ∧ ∀ e ∈ dropped, e.2 + cfg.period < st.now
@@ -263,16 +269,19 @@ structure R (cfg : Cfg) (st : St) (m : Mon) : Prop where
 theorem R_init (cfg : Cfg) : R cfg St.init Mon.init :=
   ⟨rfl, rfl, rfl, by simp [St.init], by simp [St.init], ⟨[], rfl, by simp⟩⟩
 
-/-- completion of a dial-back (`response`, `dialFailed`, matching `inboundErr`) -/
-theorem R_complete (cfg : Cfg) (st : St) (m : Mon) (hR : R cfg st m) (peer : Peer) (o : Ongoing)
-    (hl : lookup st.ongoing peer = some o) :
+/-- completion of a dial-back by the outcome of the dial (`response`, `dialFailed`) -/
+theorem R_complete (cfg : Cfg) (st : St) (m : Mon) (hR : R cfg st m) (peer : Peer) :
     R cfg { st with ongoing := erase st.ongoing peer }
-      { m with inflight := m.inflight.filter (· ≠ (peer, o.probe)) } := by
+      { m with inflight := m.inflight.filter (fun e => !(e.1 == peer)) } := by
   refine ⟨hR.now, hR.conns, ?_, erase_keys_nodup _ _ hR.keys, ?_, hR.log⟩
   · simp only
-    rw [hR.inflight, erase_map_probe _ _ _ hl hR.keys]
+    rw [hR.inflight, erase_map_req]
   · intro e he
     exact hR.probes e (mem_erase _ _ _ he)
+
+theorem R_setCur (cfg : Cfg) (st : St) (m : Mon) (hR : R cfg st m) (r : Nat) :
+    R cfg st { m with curReq := r } :=
+  ⟨hR.now, hR.conns, hR.inflight, hR.keys, hR.probes, hR.log⟩
 
 theorem R_onOutbound (cfg : Cfg) (st : St) (m : Mon) (hR : R cfg st m) (peer : Peer) (a : Maddr) :
     (judge cfg m (onOutboundConnection st peer a).2).2 = none ∧
@@ -284,7 +293,7 @@ theorem R_onOutbound (cfg : Cfg) (st : St) (m : Mon) (hR : R cfg st m) (peer : P
     split
     · simp only [judge]; exact ⟨trivial, hR⟩
     · simp only [judge]
-      exact ⟨trivial, R_complete cfg st m hR peer o ho⟩
+      exact ⟨trivial, R_complete cfg st m hR peer⟩
 
 theorem R_probe_succ (cfg : Cfg) (st : St) (m : Mon) (hR : R cfg st m) :
     R cfg { st with probeId := st.probeId + 1 } m :=
@@ -304,7 +313,7 @@ theorem R_purge (cfg : Cfg) (st : St) (m : Mon) (hR : R cfg st m) :
 
 /-- an accepted request passes every check of the monitor -/
 theorem judge_dial (cfg : Cfg) (st : St) (m : Mon) (hR : R cfg st m) (peer reqPeer : Peer) (reqId probe : Nat)
-    (addrs as : List Maddr) (thr : List (Peer × Nat)) (hp : st.probeId ≤ probe)
+    (addrs as : List Maddr) (thr : List (Peer × Nat)) (hp : st.probeId ≤ probe) (hcur : m.curReq = reqId)
     (h : resolve cfg st peer reqPeer addrs = (thr, .ok as)) :
     (judge cfg m (.dial probe peer as)).2 = none ∧
       R cfg { st with probeId := probe + 1, throttled := thr ++ [(peer, st.now)],
@@ -348,7 +357,7 @@ theorem judge_dial (cfg : Cfg) (st : St) (m : Mon) (hR : R cfg st m) (peer reqPe
   simp only [c1, Bool.false_eq_true, ↓reduceIte, c2, c3, c4, c5, c6, Bool.not_true]
   refine ⟨trivial, ⟨hR.now, hR.conns, ?_, ?_, ?_, ?_⟩⟩
   · simp only [insert]
-    rw [erase_of_not_hasKey _ _ hk, List.map_cons, hR.inflight]
+    rw [erase_of_not_hasKey _ _ hk, List.map_cons, hR.inflight, hcur]
   · simp only [insert]
     rw [erase_of_not_hasKey _ _ hk, List.map_cons, List.nodup_cons]
     refine ⟨?_, hR.keys⟩
@@ -409,9 +418,10 @@ theorem step_refines (cfg : Cfg) (st : St) (m : Mon) (op : Op) (hR : R cfg st m)
         exact ⟨trivial, ⟨hR.now, by simp [hR.conns], hR.inflight, hR.keys, hR.probes, hR.log⟩⟩
   | request peer reqPeer reqId addrs =>
     simp only [step, monConn]
+    have hRc := R_setCur cfg st m hR reqId
     by_cases hc : hasKey st.connected peer = true
     · simp only [hc, Bool.not_true, Bool.false_eq_true, ↓reduceIte]
-      have hR1 := R_probe_succ cfg st m hR
+      have hR1 := R_probe_succ cfg st _ hRc
       cases hres : resolve cfg { st with probeId := st.probeId + 1 } peer reqPeer addrs with
       | mk thr res =>
         cases res with
@@ -421,14 +431,14 @@ theorem step_refines (cfg : Cfg) (st : St) (m : Mon) (op : Op) (hR : R cfg st m)
           rw [hres] at hthr
           simp only at hthr
           rw [hthr]
-          exact ⟨trivial, R_purge cfg _ m hR1⟩
+          exact ⟨trivial, R_purge cfg _ _ hR1⟩
         | ok as =>
           simp only
           have hres' : resolve cfg st peer reqPeer addrs = (thr, .ok as) := by
             rw [← hres]; rfl
-          exact judge_dial cfg st m hR peer reqPeer reqId st.probeId addrs as thr (Nat.le_refl _) hres'
+          exact judge_dial cfg st _ hRc peer reqPeer reqId st.probeId addrs as thr (Nat.le_refl _) rfl hres'
     · simp only [hc, Bool.not_false, ↓reduceIte, judge]
-      exact ⟨trivial, R_probe_succ cfg st m hR⟩
+      exact ⟨trivial, R_probe_succ cfg st _ hRc⟩
   | inboundFailure peer reqId =>
     simp only [step, monConn]
     cases hl : lookup st.ongoing peer with
@@ -438,18 +448,31 @@ theorem step_refines (cfg : Cfg) (st : St) (m : Mon) (op : Op) (hR : R cfg st m)
       have := R_probe_succ cfg st m hR
       refine ⟨this.now, this.conns, ?_, this.keys, this.probes, this.log⟩
       simp only
-      rw [hR.inflight, filter_ne_self_of_probe_lt _ _ _ hR.probes]
+      rw [hR.inflight, filter_req_nomatch]
+      intro e he hep
+      exact absurd hep (lookup_none_keys _ _ hl e he)
     | some o =>
       simp only
       by_cases hq : (o.req == reqId) = true
       · simp only [hq, ↓reduceIte, judge]
-        exact ⟨trivial, R_complete cfg st m hR peer o hl⟩
+        have hq' : o.req = reqId := by simpa using hq
+        refine ⟨trivial, ⟨hR.now, hR.conns, ?_, erase_keys_nodup _ _ hR.keys, ?_, hR.log⟩⟩
+        · simp only
+          rw [hR.inflight, ← hq', filter_req_match _ _ _ hl hR.keys]
+        · intro e he
+          exact hR.probes e (mem_erase _ _ _ he)
       · simp only [hq, Bool.false_eq_true, ↓reduceIte, judge]
+        have hq' : o.req ≠ reqId := by simpa using hq
         refine ⟨trivial, ?_⟩
         have := R_probe_succ cfg st m hR
         refine ⟨this.now, this.conns, ?_, this.keys, this.probes, this.log⟩
         simp only
-        rw [hR.inflight, filter_ne_self_of_probe_lt _ _ _ hR.probes]
+        rw [hR.inflight, filter_req_nomatch]
+        intro e he hep
+        rw [lookup_unique _ _ _ hl hR.keys e he hep]
+        exact hq'
+  | responseSent peer reqId =>
+    simp only [step, monConn, judge]; exact ⟨trivial, hR⟩
   | dialFailure peer =>
     cases peer with
     | none => simp only [step, monConn, judge]; exact ⟨trivial, hR⟩
@@ -459,7 +482,25 @@ theorem step_refines (cfg : Cfg) (st : St) (m : Mon) (op : Op) (hR : R cfg st m)
       | none => simp only [judge]; exact ⟨trivial, hR⟩
       | some o =>
         simp only [judge]
-        exact ⟨trivial, R_complete cfg st m hR peer o hl⟩
+        exact ⟨trivial, R_complete cfg st m hR peer⟩
+
+/-- **Refinement**: the monitor accepts every trace of the model, from any coupled pair of states,
+and its final state is coupled with the final state of the model. -/
+theorem monRun_trace_R (cfg : Cfg) : ∀ (ops : List Op) (st : St) (m : Mon), R cfg st m →
+    (monRun cfg m (trace cfg st ops)).2 = none ∧
+      R cfg (Machine.exec (step cfg) st ops) (monRun cfg m (trace cfg st ops)).1 := by
+  intro ops
+  induction ops with
+  | nil => intro st m h; exact ⟨rfl, h⟩
+  | cons op ops ih =>
+    intro st m hR
+    obtain ⟨h1, h2⟩ := step_refines cfg st m op hR
+    simp only [trace, monRun, Machine.exec, List.foldl]
+    generalize hms : monStep cfg m op (step cfg st op).2 = ms at h1 h2
+    obtain ⟨m', v⟩ := ms
+    simp only at h1 h2
+    subst h1
+    exact ih _ _ h2
 
 /-- **Refinement**: the monitor accepts every trace of the model, from any coupled pair of states. -/
 theorem monRun_trace (cfg : Cfg) : ∀ (ops : List Op) (st : St) (m : Mon), R cfg st m →
@@ -469,12 +510,6 @@ theorem monRun_trace (cfg : Cfg) : ∀ (ops : List Op) (st : St) (m : Mon), R cf
   | nil => intro st m _; rfl
   | cons op ops ih =>
     intro st m hR
-    obtain ⟨h1, h2⟩ := step_refines cfg st m op hR
-    simp only [trace, monRun]
-    generalize hms : monStep cfg m op (step cfg st op).2 = ms at h1 h2
-    obtain ⟨m', v⟩ := ms
-    simp only at h1 h2
-    subst h1
-    exact ih _ _ h2
+    exact (monRun_trace_R cfg (op :: ops) st m hR).1
 
 end C50
